@@ -101,6 +101,13 @@ MUTATIONS = [
     ("dbn-keeps-only-name", F, "                if !key.eq(name) {\n                    builder.push_raw(key, jentry, item);", "                if key.eq(name) {\n                    builder.push_raw(key, jentry, item);", 1, DBN, "dbn_loop1_step"),
     ("dbn-number-tag", F, "                    STRING_TAG => {\n                        let v = unsafe { from_utf8_unchecked(item) };\n                        v.eq(name)", "                    NUMBER_TAG => {\n                        let v = unsafe { from_utf8_unchecked(item) };\n                        v.eq(name)", 0, DBN, "dbn_loop2_step"),
     ("dbn-array-error", F, "            builder.build_into(buf);\n        }\n        _ => return Err(Error::InvalidJsonType),\n    }\n    Ok(())\n}\n\n/// Deletes the array element", "            builder.build_into(buf);\n        }\n        _ => return Err(Error::InvalidJsonb),\n    }\n    Ok(())\n}\n\n/// Deletes the array element", 0, DBN, "delete_jsonb_by_name_agrees"),
+    # functions.rs: array_insert
+    ("ai-clamp-to-len-minus-1", F, "    } else if idx > len {\n        len\n    } else {", "    } else if idx > len {\n        len - 1\n    } else {", 0, INS, "array_insert_jsonb_agrees"),
+    ("ai-negative-clamped-to-len", F, "    let idx = if idx < 0 {\n        0\n    } else if idx > len {", "    let idx = if idx < 0 {\n        len\n    } else if idx > len {", 0, INS, "array_insert_jsonb_agrees"),
+    ("ai-one-element-more-before", F, "            i += 1;\n            if i >= idx {\n                break;", "            i += 1;\n            if i > idx {\n                break;", 0, INS, "ai_loop2_run"),
+    ("ai-new-value-after-rest", F, "    while let Some((jentry, item)) = items.pop_front() {\n        builder.push_raw(jentry, item);\n    }\n    builder.build_into(buf);", "    builder.build_into(buf);", 0, INS, "ai_loop3_run"),
+    ("ai-object-not-wrapped", F, "        OBJECT_CONTAINER_TAG => {\n            let jentry = JEntry::make_container_jentry(value.len());\n            items.push_back((jentry, value));", "        OBJECT_CONTAINER_TAG => {\n            let jentry = JEntry::make_string_jentry(value.len());\n            items.push_back((jentry, value));", 0, INS, "array_insert_jsonb_agrees"),
+    ("ai-scalar-len-zero", F, "        (header & CONTAINER_HEADER_LEN_MASK) as i32\n    } else {\n        1\n    };", "        (header & CONTAINER_HEADER_LEN_MASK) as i32\n    } else {\n        0\n    };", 0, INS, "array_insert_jsonb_agrees"),
     ("od-keeps-listed", F, "        if keys.contains(key) {\n            continue;\n        }", "        if !keys.contains(key) {\n            continue;\n        }", 0, OBJ, "od_loop1_step"),
     ("op-drops-listed", F, "        if !keys.contains(key) {\n            continue;\n        }", "        if keys.contains(key) {\n            continue;\n        }", 0, OBJ, "op_loop1_step"),
     ("od-accepts-arrays", F, "    if header & CONTAINER_HEADER_TYPE_MASK != OBJECT_CONTAINER_TAG {\n        return Err(Error::InvalidObject);\n    }\n\n    let mut builder = ObjectBuilder::new();\n    for (key, jentry, item) in iterate_object_entries(value, header) {\n        if keys.contains(key) {", "    if header & CONTAINER_HEADER_TYPE_MASK != ARRAY_CONTAINER_TAG {\n        return Err(Error::InvalidObject);\n    }\n\n    let mut builder = ObjectBuilder::new();\n    for (key, jentry, item) in iterate_object_entries(value, header) {\n        if keys.contains(key) {", 0, OBJ, "object_delete_jsonb_agrees"),
@@ -117,6 +124,8 @@ RESPELLINGS = [
     ("dbi-test-flipped", F, "                    if i != index {\n                        builder.push_raw(entry.0, entry.1);", "                    if index != i {\n                        builder.push_raw(entry.0, entry.1);", 0, DBI),
     ("dbi-index-sum-commuted", F, "            let len = (header & CONTAINER_HEADER_LEN_MASK) as i32;\n            let index = if index < 0 { len + index } else { index };", "            let len = (header & CONTAINER_HEADER_LEN_MASK) as i32;\n            let index = if index < 0 { index + len } else { index };", 0, DBI),
     ("oei-offsets-commuted", I, "        key_offset: 4 + length * 8,\n        val_offset: 4 + length * 8,", "        key_offset: length * 8 + 4,\n        val_offset: 8 * length + 4,", 0, ITER),
+    ("ai-clamp-test-flipped", F, "    } else if idx > len {\n        len\n    } else {", "    } else if len < idx {\n        len\n    } else {", 0, INS),
+    ("ai-break-test-flipped", F, "            i += 1;\n            if i >= idx {\n                break;", "            i += 1;\n            if idx <= i {\n                break;", 0, INS),
     ("dbn-test-as-equality", F, "                if !key.eq(name) {\n                    builder.push_raw(key, jentry, item);", "                if key != name {\n                    builder.push_raw(key, jentry, item);", 1, DBN),
 ]
 
